@@ -3,6 +3,7 @@ comparison formulas and decided exhaustively over all order types of the interva
 points (A7).  Laws, complements, toggles and pattern coverage are decided on the finite
 operator space.  Set-level semantics are decided for the singleton-collapse law only
 (trip count 1); larger sets are not decided."""
+import re
 import itertools
 from synq import Syn, walk
 from formula import OpVal, Unknown, Panic, some, is_some, fmt
@@ -243,6 +244,7 @@ def run(ctx):
     # ---------------- leftmost / rightmost (used by the all-variants and by the search ranges)
     quant_rule(ctx, model)
     setsubj_rule(ctx, model)
+    wrap_rule(ctx)
     r_ext = ctx.rule("C13.EXTREME", "TextSelectionSet::leftmost / rightmost return an item with the smallest begin / largest end, for sorted and unsorted sets (all sets up to 3 items over 0..3)")
     from formula import Evaluator, StructVal
     import itertools
@@ -592,3 +594,28 @@ def setsubj_rule(ctx, model):
                 r.discharged += 1
     ctx.floor(r, r.obligations, 100, "operator values x subject shapes")
     r.notes.append("evaluations: %d" % n_total)
+
+
+# ---------------------------------------------------------------------- WRAP
+def wrap_rule(ctx, rid="C13.WRAP"):
+    """the relation algebra is decided for TextSelection / TextSelectionSet (TestTextSelection).  What the high-level API
+    (ResultTextSelection::test / test_set, ResultTextSelectionSet::test / test_set) answers is that algebra only if it is
+    obtained from it: on every path the result comes from the low-level test, except the constant false for operands of
+    different resources."""
+    import mirq
+    r = ctx.rule(rid, "ResultTextSelection / ResultTextSelectionSet ::test and ::test_set answer through TestTextSelection::test / test_set on every path; the only other answer is the constant false")
+    prog = mirq.Program(ctx.facts.mir())
+    n = 0
+    for bid, b in sorted(prog.bodies.items()):
+        if not re.match(r"^api::textselection::<impl textselection::ResultTextSelection(Set)?<'store>>::test(_set)?$", bid):
+            continue
+        n += 1
+        ctx.functions_analysed.add(bid)
+        thr = set(bi for bi, t in b.calls() if (mirq.callee_of(t)[0] or "").startswith("textselection::TestTextSelection::test"))
+        other = mirq.undelegated_results(b, thr)
+        r.hit(bid, sample={"fn": mirq.short_fn(bid), "delegating_calls": len(thr), "other_answers": [o_[1] for o_ in other]})
+        if not thr:
+            ctx.report(r, "%s|no-delegation" % mirq.short_fn(bid), "%s no longer calls the low-level relation test" % bid, b.file, b.line)
+        for bi, what, line in other[:1]:
+            ctx.report(r, "%s|own-answer" % mirq.short_fn(bid), "%s can answer `%s` without asking the low-level relation test: that answer is not the interval relation (two unbound selections have no handle, so comparing handles makes any two of them `the same selection`)" % (bid, what), b.file, line)
+    ctx.floor(r, n, 4, "high-level relation tests")
